@@ -103,3 +103,36 @@ func kitRedisURI(name string) string {
 	}
 	return "redis://" + mr.Addr()
 }
+
+func init() {
+	verifHarnesses["VerifC10_StartUpWiring"] = VerifC10_StartUpWiring
+}
+
+// VerifC10_StartUpWiring: the store that the real start-up code (sessionStoreFactory.PreRun / Get)
+// hands to a single OIDC filter -- in-memory or Redis -- enforces that filter's absolute and idle
+// timeouts, in that order, and nobody has to call a clean-up routine for that: a session written
+// through it is not returned beyond either limit.
+func VerifC10_StartUpWiring() {
+	abs := uint32(vn.Int("absolute-timeout-s", 0, 4294967295))
+	idle := uint32(vn.Int("idle-timeout-s", 0, 4294967295))
+	oc := &oidcv1.OIDCConfig{ClientId: "c", AbsoluteSessionTimeout: abs, IdleSessionTimeout: idle}
+	useRedis := vn.Choice("backing", 2) == 1
+	if useRedis {
+		oc.RedisSessionStoreConfig = &oidcv1.RedisConfig{ServerUri: kitRedisURI("w")}
+	}
+	cfg := &configv1.Config{Chains: []*configv1.FilterChain{{Name: "a", Filters: []*configv1.Filter{{Type: &configv1.Filter_Oidc{Oidc: oc}}}}}}
+	f := NewSessionStoreFactory(cfg)
+	vn.Assert("C10/start-up", f.PreRun() == nil)
+	var gotAbs, gotIdle time.Duration = -1, -1
+	switch x := f.Get(oc).(type) {
+	case *memoryStore:
+		gotAbs, gotIdle = x.absoluteSessionTimeout, x.idleSessionTimeout
+		vn.Assert("C10/memory-backing", !useRedis)
+	case *redisStore:
+		gotAbs, gotIdle = x.absoluteSessionTimeout, x.idleSessionTimeout
+		vn.Assert("C10/redis-backing", useRedis)
+	}
+	vn.Cover("C10/wiring", true)
+	vn.Assert("C10/store-built-with-the-filter's-absolute-timeout", gotAbs == time.Duration(abs)*time.Second)
+	vn.Assert("C10/store-built-with-the-filter's-idle-timeout", gotIdle == time.Duration(idle)*time.Second)
+}
